@@ -229,11 +229,12 @@ func (k Keeper) OraclePriceForRewards(ctx sdk.Context, id uint64, amt sdk.Int) (
 
 func (k Keeper) DistributeExtRewardLend(ctx sdk.Context) error {
 	// Give external rewards to borrowers for opening a vault with specific assetID
-	var addrArr []string
-	var amountArr []sdk.Dec
-	totalAmount := sdk.NewInt(0)
 	extRewards := k.GetExternalRewardLends(ctx)
 	for _, v := range extRewards {
+		// per program: eligible borrowers, their eligible values and the total eligible value
+		var addrArr []string
+		var amountArr []sdk.Dec
+		totalAmount := sdk.ZeroDec()
 		klwsParams, _ := k.esm.GetKillSwitchData(ctx, v.AppMappingId)
 		if klwsParams.BreakerEnable {
 			return esmtypes.ErrCircuitBreakerEnabled
@@ -271,25 +272,18 @@ func (k Keeper) DistributeExtRewardLend(ctx sdk.Context) error {
 						}
 						addrArr = append(addrArr, lendPos.Owner)
 						amountArr = append(amountArr, minAmt)
-						totalAmount = totalAmount.Add(minAmt.TruncateInt())
+						totalAmount = totalAmount.Add(minAmt)
 					}
-					rewardAsset, found := k.asset.GetAssetForDenom(ctx, v.TotalRewards.Denom)
-					if !found {
+					if !totalAmount.IsPositive() || !v.AvailableRewards.Amount.IsPositive() {
 						continue
 					}
-					totalRewardAmt, found := k.OraclePriceForRewards(ctx, rewardAsset.Id, v.AvailableRewards.Amount)
-					if !found {
-						continue
-					}
-					if totalAmount.LTE(sdk.ZeroInt()) {
-						continue
-					}
-					dailyRewardAmt := totalRewardAmt.Quo(sdk.NewDec(v.DurationDays - int64(epoch.Count)))
-					totalAPR := dailyRewardAmt.Quo(sdk.NewDecFromInt(totalAmount))
+					// the rewards are paid in coins of the reward denom: today's share of the available COINS (not of
+					// their oracle value) is split pro rata to the eligible values
+					dailyRewardAmt := sdk.NewDecFromInt(v.AvailableRewards.Amount).QuoTruncate(sdk.NewDec(v.DurationDays - int64(epoch.Count)))
 					amountRewardedTracker := sdk.NewInt(0)
 					for i, borrower := range addrArr {
 						user, _ := sdk.AccAddressFromBech32(borrower)
-						finalDailyRewardsPerUser := amountArr[i].Mul(totalAPR)
+						finalDailyRewardsPerUser := dailyRewardAmt.MulTruncate(amountArr[i]).QuoTruncate(totalAmount)
 						if finalDailyRewardsPerUser.TruncateInt().GT(sdk.ZeroInt()) {
 							amountRewardedTracker = amountRewardedTracker.Add(finalDailyRewardsPerUser.TruncateInt())
 							err := k.bank.SendCoinsFromModuleToAccount(ctx, types.ModuleName, user, sdk.NewCoins(sdk.NewCoin(v.TotalRewards.Denom, finalDailyRewardsPerUser.TruncateInt())))
